@@ -1,12 +1,294 @@
-/-! Executable model for property C03 (core-only).  Not built yet: the driver answers
-    `unimplemented` so that a check of this property cannot pass by accident. -/
+import FpgoVerif.Model.C03Defs
+/-! C03 — line protocol over `Impl.*` / `Spec.*` of `Model/C03Defs.lean` (core-only).
+
+    Case line:  `<Helper> <ty> <args…>`   (space separated, no spaces inside an argument)
+      ty      i | s | t            element type int / string / struct{A int; B string}
+      element int `3`, `-1`; string `~ab` (`~` = ""); struct `2~b` (zero `0~`)
+      slice   nil | [e,e,e] | [e,e|h,h]  (after `|`: hidden elements between len and cap)
+      map     nil | {k:v,k:v}      (keys: elements, values: ints)
+      fn      f<k> (member k of the function family of that helper) | fnil
+    Elements are handled here as their tokens (token equality = Go equality); the function families
+    act on `ord tok`, the same integer code the harness computes from the Go value.
+    Observation: `[a,b]`, `[[a],[b,c]]`, `{k:v,…}` (sorted by key), `true`, `7`, `(1,3)`, `panic`,
+    `hang`; the harness appends ` mutated` when an input (up to cap / map contents) changed. -/
+
 namespace FpgoVerif.C03
 
-/-- one protocol case line in, one canonical observation line out -/
-def handle (_line : String) : String := "unimplemented"
+/-- helpers whose result is a list or a map ("documented as returning a new list or map"; the views
+    `Drop/DropLast/Take/TakeLast/Tail` included: they must not write either) -/
+def newDataHelpers : List String :=
+  ["Map", "MapIndexed", "Filter", "Reject", "Concat", "Flatten", "Distinct", "Dedupe", "DropEq", "Drop", "DropLast",
+   "DropWhile", "Take", "TakeLast", "Tail", "Reverse", "Prepend", "Partition", "SplitEvery", "GroupBy", "UniqBy", "Zip",
+   "Range", "Keys", "Values", "Merge", "SliceToMap", "DuplicateSlice", "DuplicateMap"]
 
-/-- spec-level oracle: given the case line and the observation printed by the real code, decide
-    whether the *property* is violated (`violation <why>`) or not (`allowed <why>`). -/
-def judge (_line _impl : String) : String := "violation model-and-implementation-disagree"
+/-- helpers whose doc comment promises NEW storage ("returns a new list/map", "creates a new slice/map",
+    "Return a new Slice/Map") and whose current code indeed allocates it -/
+def docNewHelpers : List String :=
+  ["Dedupe", "DropEq", "DropWhile", "Flatten", "Merge", "Zip", "GroupBy", "DuplicateSlice", "DuplicateMap"]
+
+/-- helpers that return a scalar / boolean -/
+def queryHelpers : List String :=
+  ["Reduce", "Head", "Min", "Max", "MinMax", "Every", "Some", "Exists", "IsEqual", "IsEqualMap", "IsDistinct"]
+
+/-! ### tokens and the shared function families -/
+
+def charSum (s : String) : Int := s.toList.foldl (fun a c => a + (c.toNat : Int) - 96) 0
+
+/-- integer code of an element token -/
+def ord (tok : String) : Int :=
+  match tok.splitOn "~" with
+  | [i] => (i.toInt?).getD 0
+  | [i, s] => (if i = "" then 0 else (i.toInt?).getD 0 * 4) + charSum s
+  | _ => 0
+
+def zeroTok (ty : String) : String :=
+  if ty = "s" then "~" else if ty = "t" then "0~" else "0"
+
+def even (x : Int) : Bool := x.tmod 2 == 0
+
+/-- Map: `T → int` -/
+def mapFn (k : Nat) (o : Int) : Int :=
+  match k with
+  | 0 => o | 1 => o * 2 | 2 => o.tmod 2 | 3 => 7 | 4 => -o | 5 => o * o - 3 | 6 => o.tdiv 2 | _ => o + 1
+
+/-- MapIndexed: `(T, int) → int` -/
+def mapIdxFn (k : Nat) (o i : Int) : Int :=
+  match k with
+  | 0 => o + i | 1 => o * i | 2 => i | 3 => (o + i).tmod 2 | 4 => o | 5 => i - o | 6 => o * 10 + i
+  | _ => if even i then o else -o
+
+/-- Filter / Reject: `(T, int) → bool` -/
+def predIdxFn (k : Nat) (o i : Int) : Bool :=
+  match k with
+  | 0 => even o | 1 => even i | 2 => even (o + i) | 3 => true | 4 => false | 5 => o > 1 | 6 => i < 2
+  | _ => o == i + 1
+
+/-- DropWhile / Every / Some / Partition: `T → bool` -/
+def predFn (k : Nat) (o : Int) : Bool :=
+  match k with
+  | 0 => even o | 1 => true | 2 => false | 3 => o > 1 | 4 => o ≤ 2 | 5 => o == 3 | 6 => !even o
+  | _ => o < 0
+
+/-- Reduce: `(int, T) → int` -/
+def reduceFn (k : Nat) (m o : Int) : Int :=
+  match k with
+  | 0 => m + o | 1 => (m * 2 + o).tmod 1000003 | 2 => m - o | 3 => o | 4 => m
+  | 5 => if m < o then o else m | 6 => (m * 3 + o + 1).tmod 1000003 | _ => (m * o).tmod 1000003
+
+/-- GroupBy / UniqBy: `T → int` -/
+def keyFn (k : Nat) (o : Int) : Int :=
+  match k with
+  | 0 => o.tmod 2 | 1 => o | 2 => 0 | 3 => o.tdiv 2 | 4 => o * o | 5 => -o | 6 => o.tmod 3
+  | _ => if o > 1 then 1 else 0
+
+/-! ### parsing -/
+
+def inner (tok : String) : String := ((tok.drop 1).toString.dropEnd 1).toString
+
+def csv (s : String) : List String := (s.splitOn ",").filter (· ≠ "")
+
+def pSl (tok : String) : Sl String :=
+  if tok = "nil" then ⟨[], []⟩
+  else match (inner tok).splitOn "|" with
+    | [v] => ⟨csv v, []⟩
+    | [v, h] => ⟨csv v, csv h⟩
+    | _ => ⟨[], []⟩
+
+def pList (tok : String) : List String := (pSl tok).vis
+
+def pOptList (tok : String) : Option (List String) := if tok = "nil" then none else some (pList tok)
+
+def pMap (tok : String) : List (String × String) :=
+  if tok = "nil" then []
+  else (csv (inner tok)).filterMap (fun kv => match kv.splitOn ":" with | [k, v] => some (k, v) | _ => none)
+
+def pOptMap (tok : String) : Option (List (String × String)) := if tok = "nil" then none else some (pMap tok)
+
+def pInt (tok : String) : Int := (tok.toInt?).getD 0
+
+/-- `f3` ↦ some 3, `fnil` ↦ none -/
+def pFn (tok : String) : Option Nat := ((tok.drop 1).toString.toNat?)
+
+/-! ### rendering -/
+
+def showList (l : List String) : String := "[" ++ ",".intercalate l ++ "]"
+def showLL (l : List (List String)) : String := "[" ++ ",".intercalate (l.map showList) ++ "]"
+def showBool (b : Bool) : String := if b then "true" else "false"
+
+def sortStr (l : List String) : List String := l.mergeSort (fun a b => decide (a ≤ b))
+
+/-- canonical form of a map: one binding per key (read with `mget`), sorted by key token -/
+def canonMap {ν : Type} (m : List (String × ν)) : List (String × ν) :=
+  ((m.map (·.1)).eraseDups.filterMap (fun k => (mget k m).map (fun v => (k, v)))).mergeSort
+    (fun a b => decide (a.1 ≤ b.1))
+
+def showMap (m : List (String × String)) : String :=
+  "{" ++ ",".intercalate ((canonMap m).map (fun p => p.1 ++ ":" ++ p.2)) ++ "}"
+
+def showRes {β : Type} (f : β → String) : Res β → String
+  | .ok v => f v
+  | .error .hang => "hang"
+  | .error _ => "panic"
+
+/-! ### one case -/
+
+/-- `spec = false`: the implementation model; `spec = true`: the documented definition -/
+def run (spec : Bool) (line : String) : String :=
+  let toks := (line.splitOn " ").filter (· ≠ "")
+  match toks with
+  | helper :: ty :: args =>
+    let z := zeroTok ty
+    let istr := fun (x : Int) => toString x
+    match helper, args with
+    | "Map", [f, l] =>
+      let fn := fun x => istr (mapFn ((pFn f).getD 0) (ord x))
+      if spec then showList (Spec.map fn (pList l)) else showRes showList (Impl.map "0" fn (pList l))
+    | "MapIndexed", [f, l] =>
+      let fn := fun x (i : Nat) => istr (mapIdxFn ((pFn f).getD 0) (ord x) i)
+      if spec then showList (Spec.mapIndexed fn (pList l)) else showRes showList (Impl.mapIndexed "0" fn (pList l))
+    | "Filter", [f, l] =>
+      let fn := fun x (i : Nat) => predIdxFn ((pFn f).getD 0) (ord x) i
+      if spec then showList (Spec.filter fn (pList l)) else showRes showList (Impl.filter z fn (pList l))
+    | "Reject", [f, l] =>
+      let fn := fun x (i : Nat) => predIdxFn ((pFn f).getD 0) (ord x) i
+      if spec then showList (Spec.reject fn (pList l)) else showRes showList (Impl.reject z fn (pList l))
+    | "Reduce", [f, m, l] =>
+      let fn := fun (memo : Int) x => reduceFn ((pFn f).getD 0) memo (ord x)
+      if spec then istr (Spec.reduce fn (pInt m) (pList l)) else showRes istr (Impl.reduce fn (pInt m) (pList l))
+    | "Concat", mine :: slices =>
+      if spec then showList (Spec.concat (pList mine) (slices.map pOptList))
+      else showRes showList (Impl.concat z (pList mine) (slices.map pOptList))
+    | "Flatten", slices =>
+      if spec then showList (Spec.flatten (slices.map pOptList))
+      else showRes showList (Impl.flatten z (slices.map pOptList))
+    | "Distinct", [l] =>
+      if spec then showList (Spec.distinct (pList l)) else showRes showList (Impl.distinct z (pList l))
+    | "Dedupe", [l] =>
+      if spec then showList (Spec.dedupe (pList l)) else showRes showList (Impl.dedupe (pList l))
+    | "DropEq", [x, l] =>
+      if spec then showList (Spec.dropEq x (pList l)) else showList (Impl.dropEq x (pList l))
+    | "Drop", [k, l] =>
+      if spec then showList (Spec.drop (pInt k) (pList l)) else showRes (fun s => showList s.vis) (Impl.drop (pInt k) (pSl l))
+    | "DropLast", [k, l] =>
+      if spec then showList (Spec.dropLast (pInt k) (pList l)) else showRes (fun s => showList s.vis) (Impl.dropLast (pInt k) (pSl l))
+    | "Take", [k, l] =>
+      if spec then showList (Spec.take (pInt k) (pList l)) else showRes (fun s => showList s.vis) (Impl.take (pInt k) (pSl l))
+    | "TakeLast", [k, l] =>
+      if spec then showList (Spec.takeLast (pInt k) (pList l)) else showRes (fun s => showList s.vis) (Impl.takeLast (pInt k) (pSl l))
+    | "Tail", [l] =>
+      if spec then showList (Spec.tail (pList l)) else showRes (fun s => showList s.vis) (Impl.tail (pSl l))
+    | "Head", [l] =>
+      if spec then Spec.head z (pList l) else showRes id (Impl.head z (pSl l))
+    | "DropWhile", [f, l] =>
+      let fn := (pFn f).map (fun k => fun x => predFn k (ord x))
+      if spec then showList (Spec.dropWhile fn (pList l)) else showRes showList (Impl.dropWhile z fn (pList l))
+    | "Every", [f, l] =>
+      let fn := (pFn f).map (fun k => fun x => predFn k (ord x))
+      showBool (if spec then Spec.every fn (pList l) else Impl.every fn (pList l))
+    | "Some", [f, l] =>
+      let fn := (pFn f).map (fun k => fun x => predFn k (ord x))
+      showBool (if spec then Spec.some fn (pList l) else Impl.some fn (pList l))
+    | "Exists", [x, l] =>
+      showBool (if spec then Spec.exists_ x (pList l) else Impl.exists_ x (pList l))
+    | "Partition", [f, l] =>
+      let fn := fun x => predFn ((pFn f).getD 0) (ord x)
+      showLL (if spec then Spec.partition fn (pList l) else Impl.partition fn (pList l))
+    | "Reverse", [l] =>
+      if spec then showList (Spec.reverse (pList l)) else showRes showList (Impl.reverse z (pList l))
+    | "Prepend", [x, l] =>
+      showList (if spec then Spec.prepend x (pList l) else Impl.prepend x (pList l))
+    | "SplitEvery", [k, l] =>
+      showLL (if spec then Spec.splitEvery (pInt k) (pList l) else Impl.splitEvery (pInt k) (pList l))
+    | "GroupBy", [f, l] =>
+      let fn := fun x => istr (keyFn ((pFn f).getD 0) (ord x))
+      let m := if spec then Spec.groupBy fn (pList l) else Impl.groupBy fn (pList l)
+      showMap ((canonMap m).map (fun p => (p.1, showList p.2)))
+    | "UniqBy", [f, l] =>
+      let fn := fun x => keyFn ((pFn f).getD 0) (ord x)
+      showList (if spec then Spec.uniqBy fn (pList l) else Impl.uniqBy fn (pList l))
+    | "Zip", [a, b] =>
+      if spec then showMap (Spec.zip (pList a) (pList b)) else showRes showMap (Impl.zip (pList a) (pList b))
+    | "Range", lo :: hi :: hops =>
+      let sh := fun (l : List Int) => showList (l.map istr)
+      if spec then sh (Spec.range (pInt lo) (pInt hi) (hops.map pInt))
+      else showRes sh (Impl.range (pInt lo) (pInt hi) (hops.map pInt))
+    | "Keys", [m] =>
+      if spec then showList (sortStr (Spec.keys (pMap m))) else showRes (fun l => showList (sortStr l)) (Impl.keys z (pMap m))
+    | "Values", [m] =>
+      if spec then showList (sortStr (Spec.values (pMap m))) else showRes (fun l => showList (sortStr l)) (Impl.values "0" (pMap m))
+    | "Merge", [a, b] =>
+      showMap (if spec then Spec.merge (pOptMap a) (pOptMap b) else Impl.merge (pOptMap a) (pOptMap b))
+    | "Max", [l] =>
+      if spec then istr (Spec.max ((pList l).map pInt)) else showRes istr (Impl.max ((pList l).map pInt))
+    | "Min", [l] =>
+      if spec then istr (Spec.min ((pList l).map pInt)) else showRes istr (Impl.min ((pList l).map pInt))
+    | "MinMax", [l] =>
+      let sh := fun (p : Int × Int) => "(" ++ istr p.1 ++ "," ++ istr p.2 ++ ")"
+      if spec then sh (Spec.minMax ((pList l).map pInt)) else showRes sh (Impl.minMax ((pList l).map pInt))
+    | "IsEqual", [a, b] =>
+      if spec then showBool (Spec.isEqual (pList a) (pList b)) else showRes showBool (Impl.isEqual (pList a) (pList b))
+    | "IsEqualMap", [a, b] =>
+      showBool (if spec then Spec.isEqualMap (pMap a) (pMap b) else Impl.isEqualMap (pMap a) (pMap b))
+    | "IsDistinct", [l] =>
+      showBool (if spec then Spec.isDistinct (pList l) else Impl.isDistinct (pList l))
+    | "SliceToMap", [d, l] =>
+      showMap (if spec then Spec.sliceToMap d (pList l) else Impl.sliceToMap d (pList l))
+    | "DuplicateSlice", [l] =>
+      if spec then showList (Spec.duplicateSlice (pList l)) else showRes showList (Impl.duplicateSlice (pSl l))
+    | "DuplicateMap", [m] =>
+      showMap (if spec then Spec.duplicateMap (pMap m) else Impl.duplicateMap (pMap m))
+    | _, _ => "bad-case"
+  | _ => "bad-case"
+
+/-- protocol entry point: the implementation model's observation -/
+def handle (line : String) : String := run false line
+
+/-! ### judge: the property's own statement
+
+    `violation` unless the implementation's observation equals the documented definition, or the
+    case is one of the PINNED cells (doc comment silent) and the observation is total (no panic /
+    hang), leaves the inputs unmodified and is built from the input's visible elements only
+    (`DropLast` with a negative count: a prefix of the input). -/
+
+def sepChars : List Char := ['[', ']', '(', ')', '{', '}', ',', ':', ' ']
+
+def obsTokens (obs : String) : List String :=
+  ((String.ofList (obs.toList.map (fun c => if sepChars.contains c then ',' else c))).splitOn ",").filter (· ≠ "")
+
+def isPrefixOf (a b : List String) : Bool := a.length ≤ b.length && b.take a.length == a
+
+/-- is this case a cell on which the doc comment is silent? (`some inputTokens`) -/
+def pinnedCell (line : String) : Option (List String) :=
+  match (line.splitOn " ").filter (· ≠ "") with
+  | [helper, _, a, b] =>
+    if helper = "Drop" ∧ pInt a < 0 then some (pList b)
+    else if helper = "DropLast" ∧ pInt a < 0 then some (pList b)
+    else if (helper = "Take" ∨ helper = "TakeLast") ∧ pInt a ≤ 0 then some (pList b)
+    else if helper = "SplitEvery" ∧ (pInt a ≤ 0 ∨ (pList b).isEmpty) then some (pList b)
+    else if helper = "IsEqual" ∧ (pList a).isEmpty ∧ (pList b).isEmpty then some []
+    else if helper = "IsEqualMap" ∧ (pMap a).isEmpty ∧ (pMap b).isEmpty then some []
+    else none
+  | [helper, _, a] =>
+    if helper = "IsDistinct" ∧ (pList a).isEmpty then some []
+    else if helper = "Head" ∧ (pList a).isEmpty then some []
+    else none
+  | _ => none
+
+def judge (line impl : String) : String :=
+  let want := run true line
+  if impl = want then "allowed implementation agrees with the documented definition (the model differs)"
+  else
+    let toks := obsTokens impl
+    let bad := toks.any (fun t => t = "panic" ∨ t = "mutated" ∨ t = "aliased" ∨ t = "hang" ∨ t = "crash" ∨ t = "bad-case")
+    match pinnedCell line with
+    | some input =>
+      let ty := ((line.splitOn " ").filter (· ≠ "")).getD 1 "i"
+      let okTok := fun t => input.contains t ∨ t = zeroTok ty ∨ t = "true" ∨ t = "false"
+      let helper := ((line.splitOn " ").filter (· ≠ "")).getD 0 ""
+      let shapeOk := if helper = "DropLast" then ((List.range (input.length + 1)).any (fun n => showList (input.take n) = impl)) else true
+      if !bad ∧ toks.all okTok ∧ shapeOk then
+        "allowed doc-silent cell: total, inputs unmodified, built from the input only (documented cells agree)"
+      else s!"violation doc-silent cell, but the result panics / modifies the input / is not input-derived; pinned value: {want}"
+    | none => s!"violation documented definition gives: {want}"
 
 end FpgoVerif.C03
